@@ -297,6 +297,6 @@ func diffContext(a, b string, first bool) string {
 }
 
 func TestC15(t *testing.T) {
-	S("C15").Rule = "scenarios biased to where order can leak: map options pre-populated with 2-6 entries and described (rendered as help default), maps filled from the command line, INI text setting the same options from several sections (all key/section spellings) with 0-2 independent faults, ~30% required options, up to 3 sub-commands per level, completion requests; each scenario is evaluated 40 times on fresh builds in one process (Go randomises every map range) and help, man page, INI output, parse error type+message, remaining args, all option values, INI error and values, completion items must be identical. non-trivial: a multi-entry map reaches help, or several INI sections, or two simultaneous faults; distinct by digest of the outputs"
+	S("C15").Rule = "scenarios biased to where order can leak: map options pre-populated with 2-6 (sometimes 9-14) entries and described (rendered as help default), maps filled from the command line, INI text setting the same options from several sections (all key/section spellings) with 0-2 independent faults (unknown keys, or unconvertible values of two or three different options), callback options set from INI, ~30% required options, up to 3 sub-commands per level, completion requests; each scenario is evaluated 40 times on fresh builds in one process (Go randomises every map range) and help, man page, INI output, parse error type+message, remaining args, all option values, INI error and values, completion items must be identical. non-trivial: a multi-entry map reaches help, or several INI sections, or two simultaneous faults; distinct by digest of the outputs"
 	runProp(t, "C15", genC15, c15Oracle)
 }
